@@ -129,7 +129,10 @@ def gen_mesh(rng):
         xs = [v[0] for v in verts]; ys = [v[1] for v in verts]; zs = [v[2] for v in verts]
         qs.append([max(xs) + rng.uniform(0.2, 1.5), rng.uniform(min(ys), max(ys)), max(zs)])
     d_guess = rng.choice([0.05, 0.3, 1.0, 5.0])
-    return {"k": "c02.mesh", "verts": verts, "faces": faces, "solid": False, "qs": qs, "max_dist": d_guess,
+    # the solid flag: set on meshes without an interior (nothing to be inside of) and on boxes, whose interior queries the
+    # property leaves out (the oracle skips them)
+    solid = rng.random() < 0.35
+    return {"k": "c02.mesh", "verts": verts, "faces": faces, "solid": solid, "qs": qs, "max_dist": d_guess,
             "max_angle": rng.choice([0.1, 0.5, 1.0, math.pi / 2, 0.0]), "kind": kind,
             "frame": [rng.uniform(-20, 20) for _ in range(3)] + [rng.uniform(-2, 2) for _ in range(3)]}
 
@@ -212,6 +215,9 @@ def tri_dist(q, a, b, c):
 
 def on_tri(p, a, b, c, tol):
     return abs(tri_dist(p, a, b, c)) <= tol
+
+
+NO_NORMAL = 2.220446049250313e-16
 
 
 def oracle(c, r):
@@ -341,7 +347,9 @@ def oracle(c, r):
                 raw = r["raw_normals"][m["id"]]
                 local = sub(q, m["p"])
                 nl, nr = math.sqrt(dot(local, local)), math.sqrt(dot(raw, raw))
-                if nl > 1e-9 * qs and nr > 0:
+                # a face whose scaled normal is within f64::EPSILON of zero has no normal (parry's Triangle::normal): the clause speaks
+                # of the angle to the face normal, so it says nothing there (engeom rejects such points)
+                if nl > 1e-9 * qs and nr > NO_NORMAL:
                     ang = math.acos(max(-1.0, min(1.0, dot(local, raw) / (nl * nr))))
                     accept = ang < ma or ang > math.pi - ma
                     marg = min(abs(ang - ma), abs(ang - (math.pi - ma)))
@@ -355,7 +363,7 @@ def oracle(c, r):
                             expect_in_tol.append(qi)
                     elif o["tol"] is not None:
                         expect_in_tol.append(qi)
-                elif nl == 0.0 and nr > 0 and ma > 0 and o["tol"] is None:
+                elif nl == 0.0 and nr > NO_NORMAL and ma > 0 and o["tol"] is None:
                     # a query that IS its projection has no offset at all: it is within any positive angle of the normal
                     yield ("mesh-angle-on-surface", what + ": the query lies exactly on the surface (zero offset) and is within the distance cap, but the angle-filtered query (limit %r) rejects it" % ma)
                     break
